@@ -60,6 +60,17 @@ func AddHooks(ctx *core.Context, cronner Cronner, state core.State) error {
 		}
 
 		if schedule == "" {
+			// This fact might be replacing a scheduled rule,
+			// which is then gone.  Forget that rule's job.
+			if cronner != nil && !loading {
+				if old, _ := state.Get(ctx, id); old != nil {
+					if was, _ := getSchedule(ctx, old); was != "" {
+						if _, err = cronner.Rem(ctx, id); err != nil {
+							return err
+						}
+					}
+				}
+			}
 			return nil
 		}
 
